@@ -90,8 +90,44 @@ def job_errnew(item):
     S.absorb_engine(eng)
     return S
 
+SLICE_EXPRS = ['a[::0]', 'a[::0].b', 'a[::0].b.c', 'a[1:2:0][0]', '[::0]', '[::0].a.b', 'a.b[::0] | c', 'a[*].b[::0].c', '[a[::0].b, c]', 'a[?b[::0].a]', 'length(a[::0].b)', 'a[::0][*].b', 'a[::0][?b]', 'a || b[:1:0].a.b']
+def job_sliceoff(item):
+    """an invalid-slice error points into the offending slice: offset within the brackets of the zero-step slice"""
+    expr, deadline = item
+    prog = PROG; eng = Engine(prog); eng.deadline = deadline; S = Summary(); XP.init_decls(prog)
+    ex0 = PathExec(eng, []); rtc = XP.mk_runtime(ex0)
+    r0 = XP.parse_expr(ex0, expr)
+    if r0.variant != 'Ok': S.inconclusive(f'slice-offset: {expr!r} does not compile'); return S
+    ast = r0.fields[0].v
+    import re as _re
+    m_ = _re.search(r'\[[^\[\]]*:0\]', expr); lb, rb = m_.start(), m_.end() - 1
+    spec = SY.DocSpec(depth=2, A=1, keys=('a', 'b'), strs=('a',), nums=[1])
+    def body(ex):
+        doc = SY.sym_variable(ex, spec); ex.doc = doc
+        return XP.interpret(ex, ast, SY.rc(doc), expr, rtc)
+    def on_path(ex, r):
+        S['paths'] += 1; S['outcomes'][r[0]] += 1
+        if r[0] != 'ok':
+            if r[0] == 'unsupported': S.inconclusive(f'slice-offset {expr!r}: ' + XP.short_unsupported(r[1]))
+            return
+        out = r[1]
+        if out.variant != 'Err' or XP.reason_kind(out.fields[0].v) != 'invalid-slice': return
+        off = XP.err_field(out.fields[0].v, 'offset').concrete()
+        S['vacuity']['invalid slice reached'] = True
+        if off is None or not (lb <= off <= rb):
+            acc = []; SY.lazy_null_constraints(ex.doc, acc, 'Bool')
+            sat, m = eng.check(ex.pc + acc)
+            if sat:
+                d = SY.tagged(ex, ex.doc, m, 'Bool')
+                S.cand('c12:slice-error-offset', f'{expr}: the invalid-slice error points at offset {off}, outside the offending slice [{lb}..{rb}]', {'expr': expr, 'doc': d}, {'op': 'search', 'expr': expr, 'doc': d}, expected={'offset_within': [lb, rb]})
+        elif S['paths'] % 3 == 0: S.sample({'harness': 'slice error offset', 'expr': expr, 'offset': off}, cap=1)
+    n, rest = eng.explore(body, on_path, max_paths=3000)
+    S.absorb_engine(eng)
+    return S
+
 def task(item):
     if item[0] == 'errnew': return job_errnew(item[1:])
+    if item[0] == 'sliceoff': return job_sliceoff(item[1:])
     if item[0] == 'parse':
         from . import parsejob as PJ, grammar as GR
         _, first, n, dl = item
@@ -122,6 +158,9 @@ def confirm(c, nd, nr):
     if c['key'] in ('c12:runtime-error-as-parse', 'c12:nonfinite-result-as-parse'): return d.get('kind') == 'err' and d.get('reason_kind') == 'parse', obs
     if c['key'] == 'c12:compile-error-not-parse': return d.get('kind') == 'compile-err' and d.get('reason_kind') != 'parse', obs
     if c['key'] == 'c12:error-expression': return d.get('kind') in ('err', 'compile-err') and d.get('expression') != c['request']['expr'], obs
+    if c['key'] == 'c12:slice-error-offset':
+        lo, hi = c['expected']['offset_within']
+        return d.get('kind') == 'err' and d.get('reason_kind') == 'invalid-slice' and not (lo <= d.get('offset', -1) <= hi), obs
     if c['key'] == 'c12:runtime-error-offset':
         # the failing call is the outermost call of the request expression unless the engine says it is the nested one: its '(' position
         e = c['request']['expr']; want = e.index('(')
@@ -175,7 +214,8 @@ def run(run):
         if name in ('sort_by', 'max_by', 'min_by'): lists = [lists[0][::7] if quick else lists[0][::2], lists[1]]
         jobs.append(('call', name, lists, run.deadline, 'values'))
     jobs += [('call', name, [FJ.ANY] * n, run.deadline, 'table') for name in ('abs', 'contains', 'sort_by', 'nosuch', 'merge') for n in (0, 1, 2, 3)]
-    jobs += [('num', f, n, run.deadline) for f in ('sum', 'avg') for n in (1, 2)]
+    jobs += [('call', 'sum', [[[1e308, 1e308], [1e308, -1e308], [1, 2]]], run.deadline, 'values'), ('call', 'avg', [[[1e308, 1e308, 1e308], [1]]], run.deadline, 'values')]
+    jobs += [('sliceoff', e, run.deadline) for e in SLICE_EXPRS]
     run.bounds['compile errors'] = f'every rejecting path of Parser::parse on <= {N} symbolic tokens and of Lexer::tokenize on <= 2 symbolic code points (+ templates): reason is Parse, offset is the start of a token / the offending lexeme, the expression text is carried'
     run.bounds['runtime errors'] = 'built-in calls (by-functions with nested calls inside expression references, arity/type/unknown-function errors for a sample of functions x 11 type representatives): Runtime kind, expression text, offset = opening parenthesis of the failing call'
     run.bounds['rendering'] = 'Display for JmespathError executed from its MIR on every JmespathError::new path: reason, (line l, column c), expression, caret line'
